@@ -43,7 +43,8 @@ META = {
             'deadlock and livelock detection.',
     'note': 'Virtual server, clock, executor and connections as in DESIGN.md section 2 (VConnection implements push/close/create_timer '
             'only).  Client timeouts may expire in any order.  A polling loop that only real time would end is ended by a clock that '
-            'advances after 3000 readings in one event.  _MIN_TRASH_INTERVAL is set to 0 for the v2 pool.',
+            'advances after 3000 readings in one event; under engine S a timed wait of zero length lets 10 microseconds pass.  '
+            '_MIN_TRASH_INTERVAL is set to 0 for the v2 pool.',
     'design_ref': 'C12',
 }
 
